@@ -175,7 +175,17 @@ pub struct Ev {
     pub topics: Vec<xdr::ScVal>,
     pub data: std::collections::BTreeMap<String, i128>,
 }
+impl Ev {
+    /// named i128 field of the event data, if present
+    pub fn amt(&self, k: &str) -> Option<i128> {
+        self.data.get(k).copied()
+    }
+}
 impl Base {
+    /// the actor named by topic `k` (after the event name) of an event, if it is one
+    pub fn party(&self, ev: &Ev, k: usize) -> Option<usize> {
+        ev.topics.get(k).and_then(|t| self.actor_of(t))
+    }
     pub fn last_events(&self) -> Vec<Ev> {
         use soroban_sdk::testutils::Events as _;
         let mut out = vec![];
